@@ -160,17 +160,28 @@ class Recorder:
             self.window = None
         if twoway:
             kind = "KTwoWay" if self.window_added else "KLocalReject"
-            fl = self.fires[h]
-            d.addCallbacks(lambda r: fl.append(O_RESULT), lambda f: fl.append(classify(f)))
+            if not any(r.deferred is d for r in self.keep):
+                self.watch(d, h)
+            d.addErrback(lambda f: None)
         else:
             kind = "KOneWay"
         self.trace[idx][0] = ("Call", kind)
         self.end(idx)
         return h
 
-    def watch_oneway(self, req, h):
+    def watch(self, d, h):
+        """record every firing of d on handle h, at the moment it happens, without consuming the result"""
         fl = self.fires[h]
-        req.deferred.addCallbacks(lambda r: fl.append(O_RESULT), lambda f: fl.append(classify(f)))
+
+        def cb(r):
+            fl.append(O_RESULT)
+            return r
+
+        def eb(f):
+            fl.append(classify(f))
+            return f
+        d.addCallbacks(cb, eb)
+
 
 
 def classify(f):
@@ -197,8 +208,9 @@ def recording(A):
                 return
             rec.handle[id(self)] = rec.window
             rec.keep.append(self)
+            rec.watch(self.deferred, rec.window)
             if reqID == 0:
-                rec.watch_oneway(self, rec.window)
+                self.deferred.addErrback(lambda f: None)
 
     def which(self):
         h = rec.handle.get(id(self))
@@ -530,7 +542,9 @@ def api_sequence(ops):
                         pass
             elif op[0] in ("Complete", "Fail"):
                 h = op[1]
-                reqs = [r for r in rec.keep if rec.handle[id(r)] == h]
+                # a PendingRequest that was created and then abandoned by _callRemote before commitment point 1
+                # (two-way id but never registered) is garbage in the real program: nobody can invoke it
+                reqs = [r for r in rec.keep if rec.handle[id(r)] == h and (r.broker is not None or r.reqID == 0)]
                 if not reqs:
                     # no PendingRequest object exists for this handle (dead / rejected call): nothing to invoke;
                     # the model treats the op as a no-op on an inactive record -- record it as such
@@ -693,6 +707,8 @@ def tub_level(ctx):
         seed = ctx.rng.randint(0, 10 ** 9)
         import random
         cfg = dict(event=ev_, nsteps=nsteps, logRemoteFailures=lr, seed=seed)
+        import gc
+        gc.collect()        # safe point (see harness/c03.py run)
         try:
             with quiet():
                 bad, info = tub_scenario(random.Random(seed), ev_, nsteps, lr)
